@@ -60,10 +60,15 @@ type oracleTables struct {
 	decompress, decode, encode, compress map[string]L // key -> [] | [value]
 	order                                [4][]string
 	tooBig                               []string
+	sdecode                              map[string]L
+	sorder                               []string
+	gunzip                               map[string]L // unbounded, for the monitors
+	gorder                               []string
+	oversize                             bool // some representation of some message exceeds the limit
 }
 
 func newTables() *oracleTables {
-	return &oracleTables{decompress: map[string]L{}, decode: map[string]L{}, encode: map[string]L{}, compress: map[string]L{}}
+	return &oracleTables{decompress: map[string]L{}, decode: map[string]L{}, encode: map[string]L{}, compress: map[string]L{}, sdecode: map[string]L{}, gunzip: map[string]L{}}
 }
 func (t *oracleTables) add(which int, m map[string]L, k []byte, v L) {
 	if _, ok := m[string(k)]; ok {
@@ -86,7 +91,15 @@ func (t *oracleTables) value() L {
 		big = append(big, Bb([]byte(k)))
 	}
 	out[4] = big
-	return out
+	sd := L{}
+	for _, k := range t.sorder {
+		sd = append(sd, L{Bb([]byte(k)), t.sdecode[k]})
+	}
+	gz := L{}
+	for _, k := range t.gorder {
+		gz = append(gz, L{Bb([]byte(k)), t.gunzip[k]})
+	}
+	return append(out, sd, gz)
 }
 
 // learn computes, by independent library calls, what the four oracles answer for a wire
@@ -95,6 +108,18 @@ func (t *oracleTables) value() L {
 // compress with gzip.
 func (t *oracleTables) learn(payload []byte, newMsg func() proto.Message, clientCodec, serverCodec string, limit int64) {
 	plainCandidates := [][]byte{payload}
+	if int64(len(payload)) > limit {
+		t.oversize = true
+	}
+	if un, err := gunzipBytes(payload); err == nil {
+		if _, ok := t.gunzip[string(payload)]; !ok {
+			t.gunzip[string(payload)] = L{Bb(un)}
+			t.gorder = append(t.gorder, string(payload))
+		}
+		if int64(len(un)) > limit {
+			t.oversize = true
+		}
+	}
 	if un, err := gunzipBytes(payload); err == nil && int64(len(un)) <= limit {
 		t.add(0, t.decompress, payload, L{Bb(un)})
 		plainCandidates = append(plainCandidates, un)
@@ -120,6 +145,27 @@ func (t *oracleTables) learn(payload []byte, newMsg func() proto.Message, client
 		}
 		t.add(2, t.encode, id, L{Bb(enc)})
 		t.add(3, t.compress, enc, L{Bb(gzipBytes(enc))})
+		// what a backend decoding with the server codec would recover (for the monitors)
+		for _, sb := range [][]byte{enc, plain} {
+			if _, ok := t.sdecode[string(sb)]; !ok {
+				sm := newMsg()
+				if err := vgCodec(serverCodec).Unmarshal(sb, sm); err == nil {
+					t.sdecode[string(sb)] = L{Bb(canon(sm))}
+				} else {
+					t.sdecode[string(sb)] = L{}
+				}
+				t.sorder = append(t.sorder, string(sb))
+			}
+		}
+		gz := gzipBytes(enc)
+		t.add(0, t.decompress, gz, L{Bb(enc)})
+		if _, ok := t.gunzip[string(gz)]; !ok {
+			t.gunzip[string(gz)] = L{Bb(enc)}
+			t.gorder = append(t.gorder, string(gz))
+		}
+		if int64(len(enc)) > limit || int64(len(gz)) > limit {
+			t.oversize = true
+		}
 		t.add(3, t.compress, plain, L{Bb(gzipBytes(plain))})
 	}
 }
@@ -192,6 +238,7 @@ type readerCase struct {
 	eofLast     bool
 	sizes       []int
 	tables      *oracleTables
+	intent      L
 }
 
 func (rc readerCase) serverCodec() string {
@@ -231,9 +278,10 @@ func (rc readerCase) run() (in L, out L, skip bool) {
 	serverComp := clientComp && rc.acceptComp
 	sameComp := !clientComp || rc.acceptComp
 	senv := serverEnvKind(rc.target, rc.streaming)
-	cx := L{clientEnvKind(rc.form), senv, int64(rc.limit), contentLen, clientComp, serverComp, len(senv) == 0, rc.sameCodec, sameComp, false}
+	cx := L{clientEnvKind(rc.form), senv, int64(rc.limit), contentLen, clientComp, serverComp, len(senv) == 0, rc.sameCodec, sameComp, !formEnveloped(rc.form)}
 	kind := int64(1)
-	if rc.sameCodec && sameComp {
+	mixed := serverComp && len(senv) == 0 && formEnveloped(rc.form)
+	if rc.sameCodec && sameComp && !mixed {
 		kind = 0
 		if formProtocol(rc.form) == rc.target {
 			kind = 2 // pass-through: no adapter at all
@@ -247,7 +295,7 @@ func (rc readerCase) run() (in L, out L, skip bool) {
 	for i, s := range rc.sizes {
 		sizes[i] = int64(s)
 	}
-	in = L{cx, rc.tables.value(), L{chunksV(rc.chunks), B(term), rc.eofLast}, sizes, kind}
+	in = L{cx, rc.tables.value(), L{chunksV(rc.chunks), B(term), rc.eofLast}, sizes, kind, rc.intent}
 	return in, readsV(res.Backend.Reads), false
 }
 
@@ -272,6 +320,8 @@ func init() {
 			}
 			var body []byte
 			tag := "valid"
+			var msgIntent L
+			hard, soft := false, false
 			for m := 0; m < nmsgs; m++ {
 				var msg proto.Message
 				size := pick(r, []int{0, 0, 1, 3, 12, 30, 90})
@@ -292,9 +342,17 @@ func init() {
 				if err != nil {
 					panic(err)
 				}
+				idOK, id := true, canon(msg)
 				if r.chance(1, 12) {
 					plain = r.bytes(1 + r.intn(6)) // undecodable (mostly)
 					tag = "garbage"
+					soft = true
+					probe := newMsg()
+					if err := vgCodec(rc.clientCodec).Unmarshal(plain, probe); err != nil {
+						idOK = false
+					} else {
+						id = canon(probe)
+					}
 				}
 				payload := plain
 				flag := byte(0)
@@ -304,6 +362,8 @@ func init() {
 					if r.chance(1, 15) {
 						payload[len(payload)/2] ^= 0x40
 						tag = "corrupt"
+						soft = true
+						idOK = false
 					}
 				}
 				rc.tables.learn(payload, newMsg, rc.clientCodec, rc.serverCodec(), int64(rc.limit))
@@ -311,20 +371,96 @@ func init() {
 					if r.chance(1, 20) {
 						flag = pick(r, []byte{2, 3, 0x80, 0x81, 0xff, 4})
 						tag = "badflag"
+						hard = true
+						idOK = false
 					}
 					env := envelope(flag, payload)
 					if r.chance(1, 20) {
 						binary.BigEndian.PutUint32(env[1:], uint32(len(payload)+pick(r, []int{1, -1, 7, 1000})))
 						tag = "lenlie"
+						soft = true
+						idOK = false
 					}
 					body = append(body, env...)
 				} else {
 					body = append(body, payload...)
 				}
+				msgIntent = append(msgIntent, L{idOK, Bb(id)})
 			}
 			if r.chance(1, 8) && len(body) > 0 {
+				full := body
 				body = body[:r.intn(len(body))]
 				tag = "cut"
+				if formEnveloped(rc.form) {
+					// recompute: only what survives the cut counts
+					hard = checkFrames(body) != ""
+					for rest := body; len(rest) >= 5; {
+						n := int(binary.BigEndian.Uint32(rest[1:5]))
+						if len(rest) < 5+n {
+							break
+						}
+						if rest[0] > 1 {
+							hard = true
+						}
+						rest = rest[5+n:]
+					}
+					// messages that are no longer complete are not part of what the client finished sending
+					kept := 0
+					rest := body
+					for len(rest) >= 5 {
+						n := int(binary.BigEndian.Uint32(rest[1:5]))
+						if len(rest) < 5+n {
+							break
+						}
+						kept++
+						rest = rest[5+n:]
+					}
+					if kept < len(msgIntent) {
+						msgIntent = msgIntent[:kept]
+					}
+				} else {
+					// without framing a shorter body is just another (probably undecodable) body
+					soft = true
+					plainBody := body
+					if rc.clientComp == "gzip" && len(body) > 0 {
+						if un, err := gunzipBytes(body); err == nil {
+							plainBody = un
+						} else {
+							plainBody = nil
+						}
+					}
+					probe := newMsg()
+					if plainBody != nil || len(body) == 0 {
+						if err := vgCodec(rc.clientCodec).Unmarshal(plainBody, probe); err == nil {
+							msgIntent = L{L{true, Bb(canon(probe))}}
+						} else {
+							msgIntent = L{L{false, B("")}}
+						}
+					} else {
+						msgIntent = L{L{false, B("")}}
+					}
+				}
+				_ = full
+			}
+			if soft {
+				// after a soft fault later frames may be misparsed: only the prefix before it counts
+				for k, m := range msgIntent {
+					if !m.(L)[0].(bool) {
+						msgIntent = msgIntent[:k]
+						break
+					}
+				}
+			}
+			if msgIntent == nil {
+				msgIntent = L{}
+			}
+			if rc.tables.oversize || int64(len(body)) > int64(rc.limit) {
+				soft = true // the size limit may legitimately end the request early
+			}
+			rc.intent = L{msgIntent, hard, soft}
+			if !formEnveloped(rc.form) {
+				// whatever the body ended up as (possibly empty) is the one message
+				rc.tables.learn(body, newMsg, rc.clientCodec, rc.serverCodec(), int64(rc.limit))
 			}
 			rc.body = body
 			rc.chunks = splitChunks(r, body, r.intn(3))
